@@ -199,6 +199,8 @@ def g_case(rng):
             else:
                 v = g_value(rng, classes[i])
                 step = {"op": "set", "var": i, "val": v}
+                if mode in ("ctx", "action") and rng.random() < 0.3:
+                    step["direct"] = True  # the host writes state.context itself between two events (no ContextUpdate event)
                 if cur is not ERR and cur not in seen_pats:
                     seen_pats.append(cur)
                 vals[i] = v
@@ -344,6 +346,10 @@ def run(case, sm, recorder_cls):
                     v = vj.dec(step["val"])
                     obs["seen"].append(vj.enc(v))
                     i = step["var"]
+                    if step.get("direct"):
+                        st.context[f"g{i}"] = v
+                        obs["hits"].append([])
+                        continue
                     if mode in ("ctx", "static", "action"):
                         d = {"type": "ContextUpdate", "data": {f"g{i}": v}}
                     elif mode == "actattr":
@@ -471,7 +477,7 @@ def _vals_at(case, upto):
 
 def model_request(case, obs):
     """the whole history for `Match.runHist` (only the plain-event modes: the statement is `match Ev(x=<tmpl>, t=<tag>)`)"""
-    if "skip" in obs or case["mode"] == "sibling":
+    if "skip" in obs:
         return None
     steps = []
     if len(obs.get("seen", [])) != len(case["steps"]):
@@ -498,9 +504,12 @@ def model_request(case, obs):
                 steps.append(d)
         return {"m": "C04.hist", "form": "action", "tmpl": [["final_script", canon_tmpl(case["tmpl"])]], "init": obs["init_seen"], "tags": [0], "loop": False,
                 "actions": acts, "k": case["k"], "steps": steps, "rx": obs["rx"]}
+    sib_sets = 0
     for s, seen in zip(case["steps"], obs["seen"]):
         if s["op"] == "set":
-            if case["mode"] == "static" or s["var"] >= case["nvars"]:
+            sib_sets += 1
+            if case["mode"] == "static" or s["var"] >= case["nvars"] or (case["mode"] == "sibling" and sib_sets > 1):
+                # sibling: only the first Set0 is matched by the sibling head (and assigns $c0); later ones are unhandled
                 steps.append({"op": "noise"})
             else:
                 steps.append({"op": "set", "var": s["var"], "val": seen})
@@ -523,6 +532,15 @@ def compare_hist(case, obs, m):
     want_kind = "action" if case["mode"] == "action" else "plain"
     if m.get("ref_kind") not in (want_kind, None):
         return f"model builds a reference event of kind {m.get('ref_kind')} for the statement, expected {want_kind}"
+    if case["mode"] == "sibling":
+        # the model follows the `Ev` head of the and-group (for it the sibling's match is a change of `$c0`); the group is
+        # complete, and Hit is sent, at the step where the later of the two heads has matched
+        first_set = next((i for i, s in enumerate(case["steps"]) if s["op"] == "set"), None)
+        ev_hit = next((i for i, x in enumerate(mh) if x == [0]), None)
+        if any(x == "err" for x in mh[: (ev_hit if ev_hit is not None else len(mh)) + 1]):
+            return None
+        done_at = max(first_set, ev_hit) if first_set is not None and ev_hit is not None else None
+        mh = [[0] if i == done_at else [] for i in range(len(mh))]
     for i in range(min(n, len(obs["hits"]), len(mh))):
         if mh[i] == "err":
             return None
